@@ -22,6 +22,7 @@ Step == CASE e.op = "@" -> Restart
           [] e.op = "foreach" -> Foreach(e.a[1], e.a[2], Drop(e.a, 3))
           [] e.op = "sanitise" -> Sanitise
           [] e.op = "corrupt" -> Corrupt(e.a[1], e.a[2])
+          [] e.op = "pvalidate" -> PValidate
           [] e.op = "default" -> Default(e.a[1])
           [] e.op = "compare" -> Compare(e.a[1], e.a[2])
           [] e.op = "mcopy" -> MCopy(e.a[1], e.a[2])
